@@ -108,6 +108,23 @@ class ResolverModel:
         if init is None:
             return self.T0, steps
         ev = Evaluator()
+        ev.program = self.P
+
+        def touches(m, seen=None):
+            """m, or a method of the class it calls on self (transitively), names yaml_implicit_resolvers"""
+            seen = seen if seen is not None else set()
+            if m.qual in seen:
+                return False
+            seen.add(m.qual)
+            for x in ast.walk(m.node):
+                if isinstance(x, ast.Attribute) and x.attr == 'yaml_implicit_resolvers':
+                    return True
+                if isinstance(x, ast.Constant) and x.value == 'yaml_implicit_resolvers':
+                    return True
+                if isinstance(x, ast.Attribute) and isinstance(x.value, ast.Name) and x.value.id == 'self' \
+                        and x.attr in c.methods and touches(c.methods[x.attr], seen):
+                    return True
+            return False
         problems = self.init_problems.setdefault(cls_key, [])
         for st in init.node.body:
             for n in ast.walk(st):
@@ -121,8 +138,7 @@ class ResolverModel:
                 if isinstance(f, ast.Attribute) and isinstance(f.value, ast.Name) and f.value.id == 'self' \
                         and f.attr in c.methods and not call.args and not call.keywords:
                     m = c.methods[f.attr]
-                    if any(isinstance(x, ast.Attribute) and x.attr == 'yaml_implicit_resolvers'
-                           for x in ast.walk(m.node)):
+                    if touches(m):
                         try:
                             ev.call_method(obj, m, [], {})
                         except AnalysisError:
@@ -135,8 +151,7 @@ class ResolverModel:
                 for n in ast.walk(st):
                     if isinstance(n, ast.Call) and isinstance(n.func, ast.Attribute) and isinstance(n.func.value, ast.Name) \
                             and n.func.value.id == 'self' and n.func.attr in c.methods \
-                            and any(isinstance(x, ast.Attribute) and x.attr == 'yaml_implicit_resolvers'
-                                    for x in ast.walk(c.methods[n.func.attr].node)):
+                            and touches(c.methods[n.func.attr]):
                         problems.append('%s.__init__ calls self.%s() conditionally (line %d): whether the YAML 1.2 patterns are '
                                         'in force depends on the state the condition reads' % (c.name, n.func.attr, n.lineno))
         return obj.attrs.get('yaml_implicit_resolvers', self.T0), steps
